@@ -120,6 +120,9 @@ def shard(p):
         # ---- (3) + (4) concatenations and expressions over single-reading accepted words
         single = [e for e in V.entries if not e["offset"] and e["key"] not in bad_keys
                   and len({(s, dd) for (s, dd, iv) in R.readings(e["word"])}) == 1]
+        by_key = {}
+        for e in single:
+            by_key.setdefault(e["key"], []).append(e)
         reqs, meta = [], []
         for _ in range(p["n_concat"]):
             k = rng.choice([2, 2, 3])
@@ -142,6 +145,18 @@ def shard(p):
                 es.append(e)
             if rng.random() < 0.15:
                 es.append(rng.choice(es))       # a repeated unit on purpose: m/m^2, s*s^2, ...
+            forced_pw = {}
+            if rng.random() < 0.2:
+                # the same unit again under ANOTHER prefix (km/m, g*kg, mm^2/km^2): a tool may refuse the mix, but if it accepts
+                # it, both prefixes count; half of the time the powers are chosen to cancel exactly (seed C05-b)
+                e0 = rng.choice(es)
+                alts = by_key.get(e0["key"], [])
+                alts = [a for a in alts if a["prefix"] != e0["prefix"]]
+                if alts:
+                    e1 = rng.choice(alts)
+                    es.insert(rng.randint(0, len(es)), e1)
+                    if rng.random() < 0.5:
+                        forced_pw = {id(e0): 1, id(e1): -1} if rng.random() < 0.6 else {id(e0): 2, id(e1): -2}
             if len(es) < 2:
                 continue
             slash_at = {rng.randint(1, len(es) - 1)} if rng.random() < 0.6 else set()
@@ -158,6 +173,8 @@ def shard(p):
                         sep = rng.choice(["*", "*", " ", " ", "  "])
                         text += sep
                 pw = rng.choice([1, 1, 1, 2, 3, -1, -2])
+                if id(e) in forced_pw:
+                    pw = forced_pw[id(e)] * sign      # net power +p resp. -p whatever side of the slash it is on
                 text += e["word"] if pw == 1 else "%s^%d" % (e["word"], pw)
                 want_v *= (V.scale[e["key"]] * F(10) ** e["prefix"]) ** (pw * sign)
                 want_d = R.add_dims(want_d, e["dims"], pw * sign)
@@ -190,7 +207,7 @@ def shard(p):
                 if (sv, dims) != (wv, wd):
                     words_ = [w for w in text.replace("/", " ").replace("*", " ").split() if w]
                     names_ = [w.split("^")[0] for w in words_]
-                    kind_ = ("repeated-unit" if len(set(names_)) < len(names_) else "") + ("two-slashes" if text.count("/") > 1 else "")
+                    kind_ = ("repeated-unit" if len(set(names_)) < len(names_) else "") + ("mixed-prefix" if len({(x[0], x[2]) for x in wp}) > len({x[0] for x in wp}) else "") + ("two-slashes" if text.count("/") > 1 else "")
                     acc.violate("c05:expression-structure" + (":" + kind_ if kind_ else ""), "`1 %s` is %s [%s] in SI; multiplying/inverting/raising as written gives %s [%s]" % (text, sv, G.si.fmt_dims(dims), wv, G.si.fmt_dims(wd)), dict(case, expected_parts=wp))
                 else:
                     acc.sample({"unit_expression": text, "read_as": parts}, cap=1)
